@@ -14,6 +14,8 @@ and item components by '|'; a bundle id is written `source~time~seq`):
        sorted, joined by '|'.
   grp <path> <mode> <peer> <timekind> <k> now=<ms> n=<expected> subs=<…> snap=<…> sent=<…>
        one group of submissions through a fresh Core.
+       timekind: now | epoch | old2m | old2d (one creation time for the whole group) | mixed (several
+       sources and NON-MONOTONE creation times: T, T+1s, T-1s, epoch, T+1ms in any order);
        path: sb (Core.SendBundle) | agent (application agent → AgentManager) | report / report2
        (received bundles that request reports; the node originates n status reports);
        mode: seq | conc (one goroutine per submission); peer: none | neigh | destfail | dest;
@@ -213,8 +215,14 @@ def handleGrp (path mode peer : String) (now n : Nat)
   if assigned.length ≠ tags.length then "diff grp a-bundle-without-any-observation" else
   let ordered := sortBy (fun (e : Nat × BundleId) => e.2.seq)
     (sortBy (fun (e : Nat × BundleId) => e.2.time) assigned)
+  -- sequential submissions: the i-th one gets the number of earlier submissions with its (source, time)
+  let rec expectSeq : List (Nat × BundleId) → List (Nat × BundleId) → List (Nat × Nat)
+    | _, [] => []
+    | seen, (t, i) :: rest =>
+      (t, (seen.filter (fun e => e.2.source = i.source ∧ e.2.time = i.time)).length) ::
+        expectSeq ((t, i) :: seen) rest
   let seqOrderOk := mode != "seq" || isReport ||
-    (ordered.map (·.1)) == (subs.map (·.1))
+    (expectSeq [] subs).all (fun e => (assigned.find? (·.1 = e.1)).map (·.2.seq) == some e.2)
   if ¬ seqOrderOk then "diff grp sequential-submissions-numbered-out-of-order" else
   let peers1 : List Nat := match peer with
     | "neigh" => [3] | "destfail" => [2] | "dest" => [2] | _ => []
